@@ -514,6 +514,9 @@ func sameShape(a, b Value) bool {
 	case *TupleV:
 		y, ok := b.(*TupleV)
 		return ok && len(x.Elems) == len(y.Elems)
+	case *FuncV:
+		_, ok := b.(*FuncV)
+		return ok
 	}
 	return false
 }
@@ -562,7 +565,10 @@ func (e *SpecEnv) toIdx(v TV) *Term {
 
 func (e *SpecEnv) evalIndex(n *Node) TV {
 	x := e.eval(n.Args[0])
-	i := e.toIdx(e.eval(n.Args[1]))
+	var i *Term
+	if _, isMap := x.T.Underlying().(*types.Map); !isMap {
+		i = e.toIdx(e.eval(n.Args[1]))
+	}
 	switch u := x.T.Underlying().(type) {
 	case *types.Slice:
 		s := x.V.(*SliceV)
@@ -782,6 +788,16 @@ func (e *SpecEnv) evalCall(n *Node) TV {
 			return TV{V: iv.Data, T: t}
 		}
 		return TV{V: e.st.Load(t, iv.Data), T: t}
+	case "funcid":
+		if args[0].Kind != "str" {
+			sfail("funcid(\"name\")")
+		}
+		full := e.pkg.Path() + "." + args[0].Name
+		fn := e.ex.eng.allFuncs[full]
+		if fn == nil {
+			sfail("funcid: unknown function %s", full)
+		}
+		return TV{V: &FuncV{Fn: fn, Sym: e.ex.eng.funcID(fn)}, T: fn.Signature}
 	case "samebase":
 		a, b := e.eval(args[0]).V.(*SliceV), e.eval(args[1]).V.(*SliceV)
 		return boolTV(And(Eq(a.Base, b.Base), Eq(a.Off, b.Off)))
@@ -828,3 +844,60 @@ func (e *SpecEnv) evalCall(n *Node) TV {
 }
 
 var specBuiltins = map[string]func(e *SpecEnv, args []TV) TV{}
+
+// lvalAddr: address and type of an addressable expression (x.F, x.F.G, *p, s[i]).
+func (e *SpecEnv) lvalAddr(n *Node) (*Term, types.Type) {
+	switch n.Kind {
+	case "paren":
+		return e.lvalAddr(n.Args[0])
+	case "unary":
+		if n.Op == "*" {
+			p := e.eval(n.Args[0])
+			pt, ok := p.T.Underlying().(*types.Pointer)
+			if !ok {
+				sfail("deref of non-pointer")
+			}
+			return p.V.(*Term), pt.Elem()
+		}
+	case "sel":
+		var base *Term
+		var bt types.Type
+		x := func() (r TV) {
+			defer func() {
+				if rec := recover(); rec != nil {
+					if _, ok := rec.(specErr); ok {
+						r = TV{}
+						return
+					}
+					panic(rec)
+				}
+			}()
+			return e.eval(n.Args[0])
+		}()
+		if x.T != nil {
+			if pt, ok := x.T.Underlying().(*types.Pointer); ok {
+				base, bt = x.V.(*Term), pt.Elem()
+			}
+		}
+		if base == nil {
+			base, bt = e.lvalAddr(n.Args[0])
+		}
+		st, ok := bt.Underlying().(*types.Struct)
+		if !ok {
+			sfail("selector on non-struct lvalue")
+		}
+		for i := 0; i < st.NumFields(); i++ {
+			if st.Field(i).Name() == n.Name {
+				return FldAddr(base, i), st.Field(i).Type()
+			}
+		}
+		sfail("no field %s", n.Name)
+	case "index":
+		x := e.eval(n.Args[0])
+		if sl, ok := x.T.Underlying().(*types.Slice); ok {
+			return x.V.(*SliceV).ElemAddr(e.toIdx(e.eval(n.Args[1]))), sl.Elem()
+		}
+	}
+	sfail("expression is not addressable")
+	return nil, nil
+}
